@@ -868,17 +868,17 @@ def run_tlc_plain(name, module, cfgpath, outdir, timeout=1500, workers=8):
     return st
 
 
-FAMILIES = {"two": fam_two, "restart": fam_restart, "threads": fam_threads, "conc": fam_conc, "wincmd": fam_wincmd, "wrapper": fam_wrapper, "faults": fam_faults, "env": lambda t, o: fam_launch("env", t, o), "wiring": lambda t, o: fam_launch("wiring", t, o), "options": lambda t, o: fam_launch("options", t, o),
+FAMILIES = {"env2": lambda t, o: fam_launch("env2", t, o), "two": fam_two, "restart": fam_restart, "threads": fam_threads, "conc": fam_conc, "wincmd": fam_wincmd, "wrapper": fam_wrapper, "faults": fam_faults, "env": lambda t, o: fam_launch("env", t, o), "wiring": lambda t, o: fam_launch("wiring", t, o), "options": lambda t, o: fam_launch("options", t, o),
             "destroy": fam_destroy, "status": fam_status, "run": fam_run, "stop": fam_stop, "life": fam_life, "poll": fam_poll, "stream": fam_stream, "drain": fam_drain}
 
 PROPS = {
     "C01": {"families": ["status", "stop", "two"], "title": "exit status exact, stable, reaped once"},
     "C06": {"families": ["stop", "faults", "two"], "title": "only the own unreaped child is signalled or waited for"},
     "C07": {"families": ["stop"], "title": "stop sequences"},
-    "C03": {"families": ["env"], "title": "launch fidelity: argv, environment, working directory, program resolution"},
-    "C12": {"families": ["env", "faults"], "title": "start leaves the caller untouched and gives the child a clean signal state"},
+    "C03": {"families": ["env", "env2"], "title": "launch fidelity: argv, environment, working directory, program resolution"},
+    "C12": {"families": ["env", "env2", "faults"], "title": "start leaves the caller untouched and gives the child a clean signal state"},
     "C10": {"families": ["wiring"], "title": "each standard stream is connected exactly where the options say"},
-    "C11": {"families": ["wiring"], "title": "nothing else is inherited"},
+    "C11": {"families": ["wiring", "env2"], "title": "nothing else is inherited"},
     "C13": {"families": ["options"], "title": "options rejected up front, accepted as documented"},
     "C04": {"families": ["faults", "env", "wiring", "restart"], "title": "start is all-or-nothing and reports the real cause"},
     "C05": {"families": ["faults", "wiring", "life"], "title": "no leak, no foreign or double close"},
